@@ -62,11 +62,23 @@ class CfgWorld:
         # hide state carried from one call to the next)
         self.schedule = rnd.choice(["every", "every", "third", "end"])
         ctx.count("schedule:" + self.schedule)
+        # 'dense' worlds draw every label the API can express (6 types x
+        # conditional x direct, and no label) on very few node pairs, so
+        # that a pair fills up with parallel edges
+        self.dense = rnd.random() < 0.15
+        if self.dense:
+            ctx.count("regime:dense-pairs")
+            self.nodes = self.nodes[:2]
+        self.all_labels = [lambda: None] + [
+            (lambda t=t, c=c, d=d: L(t, c, d))
+            for t in T for c in (False, True) for d in (False, True)]
         self.labels = [lambda: None, lambda: L(T.Branch, False, False),
                        lambda: L(T.Branch), lambda: L(T.Call, True, True),
                        lambda: L(T.Fallthrough, False, True),
                        lambda: L(T.Return, True, False),
                        lambda: L(T.Syscall), lambda: L(T.Sysret, True)]
+        if self.dense:
+            self.labels = self.all_labels
 
     def nid(self, n):
         for i, x in enumerate(self.nodes):
@@ -131,6 +143,8 @@ class CfgWorld:
             pairs = collections.Counter((k[0], k[1]) for k in model)
             if any(v > 1 for v in pairs.values()):
                 ctx.count("parallel_edge_states")
+            if pairs:
+                ctx.seen("max_parallel_edges", max(pairs.values()))
             for e in model.values():
                 if e not in cfg:
                     self.fail("membership:" + after,
@@ -190,6 +204,14 @@ class CfgWorld:
                          "clear", "update", "ior", "iand", "isub", "ixor",
                          "move", "query"])
         es = self.edges(c)
+        if self.dense and rnd.random() < 0.15:
+            # fill one ordered pair with all labels but a few, in one call
+            a, b = rnd.choice(self.nodes), rnd.choice(self.nodes)
+            labs = list(self.all_labels)
+            rnd.shuffle(labs)
+            es = [gt.Edge(a, b, f()) for f in labs[rnd.choice([0, 1, 1, 2]):]]
+            op = rnd.choice(["update", "ior"])
+            self.ctx.count("op:saturate-pair")
         if op in ("add", "discard", "remove"):
             es = (es or [self.edge()])[:1]
         self.case.ops.append({"op": op, "cfg": c,
